@@ -7,6 +7,8 @@ import (
 	"go/types"
 	"sort"
 	"strings"
+
+	"golang.org/x/tools/go/ssa"
 )
 
 func init() {
@@ -571,6 +573,7 @@ func checkC20(c *Ctx, r *Report) {
 			r.check(okBody, "parens-silent", "body", "expr(p); consume(')')", "the '(' rule must be exactly: compile one expression, then consume one ')'", c.pos(row.Pos))
 		}
 	}
+	ruleNoNestingCounter(c, r, "no-nesting-counter")
 	ruleTokenPos(c, r, "token-pos")
 	r.note("equality of the compiled output across all re-renderings of a program (needs the lexer's full semantics); only the layout-handling rules are decided")
 }
@@ -814,4 +817,99 @@ func (c *Ctx) tokenConsumedBetween(fd *ast.FuncDecl, parses []token.Pos, pos tok
 		return true
 	})
 	return found
+}
+
+// ruleNoNestingCounter (C20): expression parsing consults no counter of its own nesting. A field that the code
+// reachable from parsePrecedence increments or decrements and also compares in a branch condition makes the
+// outcome depend on how deeply an expression is nested or parenthesised.
+func ruleNoNestingCounter(c *Ctx, r *Report, rule string) {
+	r.rule(rule, 1, "no integer field is both stepped (x.f++ / x.f-- / x.f += k) and compared in a branch condition by the functions reachable from parsePrecedence (call graph including the parse rule table): redundant parentheses and nesting of any depth parse alike")
+	obj, _ := c.find("parser.parsePrecedence")
+	if obj == nil {
+		r.bad(rule, "parsePrecedence", "function not found", "")
+		return
+	}
+	root := c.ssaFunc(obj)
+	if root == nil {
+		r.bad(rule, "parsePrecedence", "no SSA form", "")
+		return
+	}
+	type fkey struct{ st, f string }
+	fieldOf := func(v ssa.Value) (fkey, bool) {
+		fa, ok := v.(*ssa.FieldAddr)
+		if !ok {
+			return fkey{}, false
+		}
+		name, st := structOf(fa.X.Type())
+		if st == nil {
+			return fkey{}, false
+		}
+		fld := st.Field(fa.Field)
+		if b, ok := fld.Type().Underlying().(*types.Basic); !ok || b.Info()&types.IsInteger == 0 {
+			return fkey{}, false
+		}
+		return fkey{name, fld.Name()}, true
+	}
+	stepped := map[fkey]string{}
+	compared := map[fkey]string{}
+	n := 0
+	for f := range reachable(c.VTA(), root) {
+		if !inRepo(f) {
+			continue
+		}
+		n++
+		for _, b := range f.Blocks {
+			for _, ins := range b.Instrs {
+				switch x := ins.(type) {
+				case *ssa.Store:
+					k, ok := fieldOf(x.Addr)
+					if !ok {
+						continue
+					}
+					// stored value is (load of the same field) +/- something
+					if bo, ok := x.Val.(*ssa.BinOp); ok && (bo.Op == token.ADD || bo.Op == token.SUB) {
+						for _, opnd := range []ssa.Value{bo.X, bo.Y} {
+							if ld, ok := opnd.(*ssa.UnOp); ok && ld.Op == token.MUL {
+								if k2, ok := fieldOf(ld.X); ok && k2 == k {
+									stepped[k] = c.pos(x.Pos()) + " in " + ssaFuncName(f)
+								}
+							}
+						}
+					}
+				case *ssa.BinOp:
+					switch x.Op {
+					case token.LSS, token.LEQ, token.GTR, token.GEQ, token.EQL, token.NEQ:
+					default:
+						continue
+					}
+					feedsIf := false
+					if refs := x.Referrers(); refs != nil {
+						for _, rf := range *refs {
+							if _, ok := rf.(*ssa.If); ok {
+								feedsIf = true
+							}
+						}
+					}
+					if !feedsIf {
+						continue
+					}
+					for _, opnd := range []ssa.Value{x.X, x.Y} {
+						if ld, ok := opnd.(*ssa.UnOp); ok && ld.Op == token.MUL {
+							if k, ok := fieldOf(ld.X); ok {
+								compared[k] = c.pos(x.Pos()) + " in " + ssaFuncName(f)
+							}
+						}
+					}
+				}
+			}
+		}
+	}
+	var bad []string
+	for k, where := range stepped {
+		if cmp, ok := compared[k]; ok {
+			bad = append(bad, fmt.Sprintf("%s.%s is stepped at %s and compared at %s", k.st, k.f, where, cmp))
+		}
+	}
+	sort.Strings(bad)
+	r.check(len(bad) == 0 && n > 5, rule, "expression-parser", fmt.Sprintf("%d functions reachable from parsePrecedence; %d stepped integer fields, none of them compared", n, len(stepped)), "the expression parser keeps a counter that decides a branch — the outcome depends on nesting depth: "+strings.Join(bad, "; "), c.pos(root.Pos()))
 }
